@@ -458,7 +458,9 @@ static std::string runCli(const vj::Val& st) {
   /* stderr shape: empty / has "Error (line:col)" / other */
   bool pos = false;
   { size_t p0 = err.find("Error ("); if (p0 != std::string::npos) { size_t c = err.find(':', p0), e = err.find(')', p0); pos = c != std::string::npos && e != std::string::npos && c < e; } }
-  o += std::string(",\"err_empty\":") + (err.empty() ? "true" : "false") + ",\"err_pos\":" + (pos ? "true" : "false") + ",\"err\":" + vj::q(err.substr(0, 200));
+  long eline = 0, ecol = 0;
+  { size_t p0 = err.find("Error ("); if (p0 != std::string::npos) sscanf(err.c_str() + p0, "Error (%ld:%ld)", &eline, &ecol); }
+  o += std::string(",\"err_empty\":") + (err.empty() ? "true" : "false") + ",\"err_pos\":" + (pos ? "true" : "false") + ",\"err_line\":" + std::to_string(eline) + ",\"err_col\":" + std::to_string(ecol) + ",\"err\":" + vj::q(err.substr(0, 200));
   o += std::string(",\"hasfile\":") + (hasfile ? "true" : "false") + ",\"file\":" + vj::q(file);
   unlink(prog.c_str()); unlink(so.c_str()); unlink(se.c_str()); unlink(of.c_str()); unlink(si.c_str()); rmdir(dir.c_str());
   return o;
